@@ -9,6 +9,7 @@ mod pkgname;
 mod testconfig;
 mod asyncfilter;
 mod witfeatures;
+mod typeeq;
 mod runmatrix;
 
 fn main() -> Result<()> {
@@ -20,6 +21,7 @@ fn main() -> Result<()> {
     match (args[1].as_str(), args[2].as_str()) {
         ("runmatrix", _) => runmatrix::run(&args[2], &args[3], args.get(4).map(|s| s.parse().unwrap()).unwrap_or(14)),
         ("witfeatures", _) => witfeatures::run(&args[2..]),
+        ("typeeq", _) => typeeq::run(&args[2], &args[3]),
         ("ns", "replay") => ns::replay(&rest[0], &rest[1]),
         ("ns", "record") => ns::record(rest[0].parse()?, rest[1].parse()?, &rest[2]),
         ("source", "replay") => source::replay(&rest[0], &rest[1]),
